@@ -96,8 +96,35 @@ def full_alpha(c):
             if isinstance(enc, bytes):
                 enc = enc.decode("utf-8", "replace")
             prm = sorted((pk, pv if isinstance(pv, str) else list(pv)) for pk, pv in getattr(x, "params", {}).items())
-            props.append([k, type(x).__name__, prm, enc])
+            props.append([k, type(x).__name__, prm, enc, native(x)])
     return {"name": c.name, "props": props, "kids": [full_alpha(s) for s in c.subcomponents]}
+
+
+def native(x):
+    """the decoded Python value itself (not its encoding): two values with the same text but different
+    native values -- e.g. floats that were rounded on output -- must not compare equal"""
+    try:
+        if hasattr(x, "latitude"):
+            return [float(x.latitude).hex(), float(x.longitude).hex()]
+        if isinstance(x, float):
+            return float(x).hex()
+        if hasattr(x, "dts"):
+            return [repr(d.dt) for d in x.dts]
+        if hasattr(x, "cats"):
+            return [str(c) for c in x.cats]
+        if hasattr(x, "dt"):
+            return repr(x.dt)
+        if hasattr(x, "td"):
+            return repr(x.td)
+        if isinstance(x, dict):
+            return repr(sorted((k, repr(v)) for k, v in x.items()))
+        if isinstance(x, (str, int)):
+            return repr(x if not isinstance(x, str) else str.__str__(x))
+        if hasattr(x, "obj"):
+            return repr(x.obj)
+    except Exception as e:   # noqa: BLE001
+        return "EXC:" + type(e).__name__
+    return repr(type(x).__name__)
 
 
 def stability(comp):
